@@ -6,11 +6,11 @@ import NmVerif.NN.Views
       input  --reshape(conv_reshape_input)--[pad(conv_pad)]--------------------------------sliding_window--+--multiply
         --sum(conv_sum_axes)--reshape(conv_reshape_reduce)--[add reshape(bias, conv_reshape_bias)]--[slice(conv_slices)]
 
-  State of the code mirrored here: /repo with the `fix:` commits for the batch extent (`conv_reshape_input` keeps it:
-  the input is reshaped to `(N, 1, g, C/g, spatial…)`) and for the dilation pair (spacing `i` is
-  `dilation[n_planes-1-i] - 1`, applied to window axis `-(i+1)`).  Still as the code has it, not as PyTorch: the weight
-  is reshaped to `(O/g, g, C/g, kernel…)`, so the group of output channel `o` is `o % groups` (known finding
-  conv.groups-interleaved).
+  State of the code mirrored here: /repo with the `fix:` commits for the batch extent (`conv_reshape_input` keeps it),
+  for the dilation pair (spacing `i` is `dilation[n_planes-1-i] - 1`, applied to window axis `-(i+1)`) and for the group
+  layout (fixes/C17-conv-groups-interleaved): the input is reshaped to `(N, g, 1, C/g, spatial…)` and the weight to
+  `(g, O/g, C/g, kernel…)`, so the group of output channel `o` is `o / (O/g)` as in PyTorch.  (Before that repair the
+  layouts were `(N, 1, g, C/g, …)` and `(O/g, g, C/g, …)`: group `o % g`, `grpInterleaved` in NN/Spec.)
 -/
 namespace NmVerif.NN
 
@@ -32,9 +32,9 @@ inductive Res (α : Type) where
 def convReshapeInput (src : Shape) (groups nPlanes : Nat) : Shape :=
   let r := List.replicate (src.length + 2) 1
   let chAx : Int := -(nPlanes : Int) - 1
-  let grpAx : Int := -(nPlanes : Int) - 2
+  let grpAx : Int := -(nPlanes : Int) - 3
   let r := setI r grpAx groups
-  let r := setI r (grpAx + 1) (getI src chAx / groups)
+  let r := setI r chAx (getI src chAx / groups)
   let r := (List.range nPlanes).foldl (fun r (i : Nat) => setI r (-((i : Int) + 1)) (getI src (-((i : Int) + 1)))) r
   -- the batch extent of a (N, C, spatial…) input is kept (fix: conv_reshape_input keeps the batch extent)
   if src.length > nPlanes + 1 then setI r 0 (getI src 0) else r
@@ -43,10 +43,22 @@ def convReshapeWeight (src : Shape) (groups nPlanes : Nat) : Shape :=
   let r := List.replicate (src.length + 1) 1
   let r := (List.range (src.length - (nPlanes - 1))).foldl (fun r (i : Nat) => setI r (-((i : Int) + 1)) (getI src (-((i : Int) + 1)))) r
   let r := (List.range (nPlanes - 1)).foldl (fun r (i : Nat) => setI r (i : Int) (getI src (i : Int))) r
-  let r := setI r 1 groups
-  setI r 0 (getI src 0 / groups)
+  let r := setI r 1 (getI src 0 / groups)
+  setI r 0 groups
 
+/-- `conv_reshape_reduce`: a batched sum `(N, g, O/g, planes…)` becomes `(N, O, planes…)`; the sum of an unbatched input
+    `(g, O/g, planes…)` becomes `(O, planes…)` (the branch added by fixes/C17-conv-groups-interleaved; before, axis 0 was
+    always taken for a batch axis: `convReshapeReduceOld`) -/
 def convReshapeReduce (src : Shape) (nPlanes : Nat) : Shape :=
+  let r := List.replicate (src.length - 1) 0
+  let r := (List.range (nPlanes + 1)).foldl (fun r (i : Nat) => setI r (-(i : Int)) (getI src (-(i : Int)))) r
+  if src.length > nPlanes + 2 then
+    let r := setI r 0 (getI src 0)
+    setI r 1 (getI src 1 * getI src 2)
+  else
+    setI r 0 (getI src 0 * getI src 1)
+
+def convReshapeReduceOld (src : Shape) (nPlanes : Nat) : Shape :=
   let r := List.replicate (src.length - 1) 0
   let r := (List.range (nPlanes + 1)).foldl (fun r (i : Nat) => setI r (-(i : Int)) (getI src (-(i : Int)))) r
   let r := setI r 0 (getI src 0)
@@ -111,7 +123,7 @@ def convInput (nPlanes : Nat) (x : Arr Int) (padding : PArg) (groups : Nat) : Re
                        | some p => .ok p
                        | none => .nothing))
 
-/-- sliding windows of input and weight, multiply, sum over window and channel axes, merge `(O/g, g)` -/
+/-- sliding windows of input and weight, multiply, sum over window and channel axes, merge `(g, O/g)` -/
 def convCore (nPlanes : Nat) (ain aw : Arr Int) : Option (Arr Int) :=
   let ks := convKernelSize aw.shape nPlanes
   let ax := convWindowAxis nPlanes
